@@ -147,9 +147,15 @@ func MapReduceChan[T, U, V any](source <-chan T, mapper MapperFunc[T, U], reduce
 // and reduce the output elements with given reducer.
 func MapReduceVoid[T, U any](generate GenerateFunc[T], mapper MapperFunc[T, U],
 	reducer VoidReducerFunc[U], opts ...Option) error {
-	_, err := MapReduce(generate, mapper, func(input <-chan U, writer Writer[any], cancel func(error)) {
-		reducer(input, cancel)
+	_, err := MapReduce(generate, func(item T, writer Writer[U], cancel func(error)) {
+		mapper(item, writer, markCancel(cancel))
+	}, func(input <-chan U, writer Writer[any], cancel func(error)) {
+		reducer(input, markCancel(cancel))
 	}, opts...)
+	// an error passed to cancel is returned as it is, even if it is (or wraps) ErrReduceNoOutput
+	if ce, ok := err.(cancelError); ok {
+		return ce.error
+	}
 	if errors.Is(err, ErrReduceNoOutput) {
 		return nil
 	}
@@ -369,6 +375,20 @@ func (gw guardedWriter[T]) Write(v T) {
 	case <-gw.done:
 	default:
 		gw.channel <- v
+	}
+}
+
+// cancelError marks an error that was passed to cancel, to tell it from the errors mapreduce itself reports.
+type cancelError struct {
+	error
+}
+
+func markCancel(cancel func(error)) func(error) {
+	return func(err error) {
+		if err != nil {
+			err = cancelError{err}
+		}
+		cancel(err)
 	}
 }
 
